@@ -881,3 +881,22 @@ func (s *HashSet) Add(h uint64) bool {
 }
 
 func (s *HashSet) Len() int64 { return s.n }
+
+// IsolatedReplay runs one case through the check's Replay function in a fresh process of
+// this binary: for cases that are expected to be able to kill the process (the worker that
+// asks survives). died reports an abnormal exit of the child.
+func IsolatedReplay(id string, ctx *Ctx, caseJSON json.RawMessage, timeout time.Duration) (viol *Violation, died bool, tail string) {
+	ck := Checks[id]
+	tmp := filepath.Join(Root, ".build", "run", fmt.Sprintf("%s-iso-%d.json", id, ctx.Shard))
+	b, _ := json.Marshal(Violation{Property: id, Case: caseJSON})
+	os.WriteFile(tmp, b, 0o644)
+	defer os.Remove(tmp)
+	rr := spawn(ck, ctx, 2000+ctx.Shard, 1, []string{"VERIF_REPLAY_CASE=" + tmp, "VERIF_DEADLINE_S=600"}, timeout)
+	if rr.rep == nil {
+		return nil, true, lastLines(rr.tail, 6)
+	}
+	if len(rr.rep.Violations) > 0 {
+		return &rr.rep.Violations[0], false, ""
+	}
+	return nil, false, ""
+}
